@@ -645,3 +645,237 @@ def rule_custom_scheme_refs(ctx, rid="R2.15"):
         else:
             r.ok(site(resolve) + " [%s]" % clause, "resolved against the document it is written in")
     return r
+
+
+def rule_no_deferred_loop_closure(ctx, rid="R5.14"):
+    """Python closes over variables, not values: a nested generator function (or generator expression / lambda) that reads a variable
+    its enclosing function rebinds in a loop sees, when its body finally runs, the value of the *latest* round.  That is harmless when
+    the lazy object is consumed in the round that made it; it is a defect when it is put aside (appended, stored, returned, yielded as an
+    object) and run after the loop has moved on -- the dispatcher's `detailed(errors)` stamping each error with the last keyword."""
+    prog = ctx.prog
+    calls = calls_of(prog)
+    reach = set(calls.reachable(calls.validation_roots()))
+    r = ctx.rule(rid, "no lazy object (generator, generator expression, lambda) whose body reads a loop variable of the enclosing function is put aside "
+                      "to run after the loop has moved on", floor=40)
+
+    def free_reads(node):
+        bound = set()
+        if isinstance(node, (ast.FunctionDef, ast.Lambda)):
+            a = node.args
+            bound |= {x.arg for x in a.args + a.kwonlyargs + getattr(a, "posonlyargs", [])}
+            if a.vararg:
+                bound.add(a.vararg.arg)
+            if a.kwarg:
+                bound.add(a.kwarg.arg)
+            # a default `k=k` binds the value of the round: that is the cure, not the disease
+        if isinstance(node, ast.GeneratorExp):
+            body = []
+        else:
+            body = node.body if isinstance(node.body, list) else [node.body]
+        if isinstance(node, ast.GeneratorExp):
+            body = [node.elt] + [x for g in node.generators[1:] for x in [g.iter]] + [i for g in node.generators for i in g.ifs]
+            for g in node.generators:
+                bound |= {n.id for n in ast.walk(g.target) if isinstance(n, ast.Name)}
+        reads = set()
+        for st in body:
+            for n in ast.walk(st):
+                if isinstance(n, ast.Name):
+                    if isinstance(n.ctx, ast.Store):
+                        bound.add(n.id)
+                    else:
+                        reads.add(n.id)
+        return reads - bound
+
+    for f in sorted(reach, key=lambda x: x.qual):
+        if isinstance(f.node, ast.Lambda):
+            continue
+        loops = [n for n in walk_body(f) if isinstance(n, (ast.For, ast.While))]
+        if not loops:
+            r.ok(site(f), "no loop")
+            continue
+        loopvars = set()
+        for lp in loops:
+            if isinstance(lp, ast.For):
+                loopvars |= {n.id for n in ast.walk(lp.target) if isinstance(n, ast.Name)}
+            for st in lp.body:
+                for n in ast.walk(st):
+                    if isinstance(n, (ast.FunctionDef, ast.Lambda, ast.GeneratorExp, ast.ClassDef)):
+                        continue
+                    if isinstance(n, ast.Name) and isinstance(n.ctx, ast.Store):
+                        loopvars.add(n.id)
+        # lazy makers: nested generator functions reading a loop variable (wherever they are defined)
+        makers = {}
+        for name, g in f.nested.items():
+            if isinstance(g, Func) and g.is_generator:
+                fr = free_reads(g.node) & loopvars
+                if fr:
+                    makers[name] = fr
+        in_loop_nodes = set()
+        for lp in loops:
+            for st in lp.body:
+                for n in ast.walk(st):
+                    in_loop_nodes.add(id(n))
+
+        def lazy_expr(e, lazy_names):
+            """names of the loop variables a lazily evaluated expression e will read, or None"""
+            if isinstance(e, ast.Name) and e.id in lazy_names:
+                return lazy_names[e.id]
+            if isinstance(e, ast.Call) and isinstance(e.func, ast.Name) and e.func.id in makers:
+                return makers[e.func.id]
+            if isinstance(e, (ast.GeneratorExp, ast.Lambda)) and id(e) in in_loop_nodes:
+                fr = free_reads(e) & loopvars
+                if isinstance(e, ast.GeneratorExp):
+                    # the first iterable is evaluated at once; only the rest is lazy
+                    pass
+                return fr or None
+            return None
+        lazy_names = {}
+        for n in walk_body(f):
+            if isinstance(n, ast.Assign) and len(n.targets) == 1 and isinstance(n.targets[0], ast.Name) and id(n) in in_loop_nodes:
+                fr = lazy_expr(n.value, lazy_names)
+                if fr:
+                    lazy_names[n.targets[0].id] = fr
+        bad = 0
+        for n in walk_body(f):
+            if id(n) not in in_loop_nodes:
+                continue
+            stored = None
+            if isinstance(n, ast.Call) and isinstance(n.func, ast.Attribute) and n.func.attr in ("append", "appendleft", "add", "insert", "setdefault", "extend") and n.args:
+                # extend(x) consumes x at once; append(x) keeps the object
+                if n.func.attr != "extend":
+                    stored = n.args[-1]
+            elif isinstance(n, ast.Assign) and any(isinstance(t, (ast.Subscript, ast.Attribute)) for t in n.targets):
+                stored = n.value
+            elif isinstance(n, ast.Return) and n.value is not None:
+                stored = n.value
+            if stored is None:
+                continue
+            fr = lazy_expr(stored, lazy_names)
+            if fr:
+                bad += 1
+                r.fail("%s|deferred-closure|%s" % (f.qual, ",".join(sorted(fr))), site(f, n),
+                       "`%s` puts aside a lazy object whose body reads the loop variable(s) %s of %s: by the time it runs the loop has moved on and it "
+                       "sees the values of a later round (errors stamped with another keyword, paths of another element)" % (norm(n)[:60], sorted(fr), f.qual))
+        if not bad:
+            r.ok(site(f), "%d loop(s); no lazy reader of their variables is put aside" % len(loops))
+    return r
+
+
+def _numeric_constant(prog, f, e, depth=0):
+    """The number a comparison operand stands for when it is fixed in the source: a literal, a module- or class-level name bound
+    once to one, an attribute of `sys` (float_info.min, maxsize, ...); else None."""
+    if depth > 3:
+        return None
+    if isinstance(e, ast.Constant) and isinstance(e.value, (int, float)) and not isinstance(e.value, bool):
+        return e.value
+    if isinstance(e, ast.UnaryOp) and isinstance(e.op, ast.USub):
+        v = _numeric_constant(prog, f, e.operand, depth + 1)
+        return -v if isinstance(v, (int, float)) else v
+    if isinstance(e, ast.BinOp) and isinstance(e.op, (ast.Pow, ast.Mult, ast.LShift)):
+        l, r_ = _numeric_constant(prog, f, e.left, depth + 1), _numeric_constant(prog, f, e.right, depth + 1)
+        if isinstance(l, (int, float)) and isinstance(r_, (int, float)):
+            try:
+                return {ast.Pow: lambda: l ** r_, ast.Mult: lambda: l * r_, ast.LShift: lambda: l << r_}[type(e.op)]()
+            except Exception:
+                return "big"
+        return None
+    if isinstance(e, ast.Attribute) and norm(e).startswith("sys."):
+        return "sys"
+    if isinstance(e, ast.Call) and norm(e.func).startswith("sys."):
+        return "sys"
+    if isinstance(e, ast.Name):
+        from .c03 import _module_constant
+        v = _module_constant(f, e.id)
+        if v is not None:
+            return _numeric_constant(prog, f, v, depth + 1)
+        return None
+    if isinstance(e, ast.Attribute) and isinstance(e.value, ast.Name) and e.value.id in ("self", "cls") or \
+            (isinstance(e, ast.Attribute) and isinstance(e.value, ast.Name) and f.cls is not None and e.value.id == f.cls.name):
+        c = f.cls
+        while c is not None:
+            if e.attr in c.attrs and isinstance(c.attrs[e.attr], ast.expr):
+                return _numeric_constant(prog, f, c.attrs[e.attr], depth + 1)
+            c = None
+    return None
+
+
+def rule_no_size_thresholds(ctx, rid, modules, what):
+    """The properties quantify over instances, schemas, documents and histories of *every* size: code whose behaviour changes at a
+    number fixed in the source -- a nesting depth of 64, a store of 1024 documents, 256 scopes, a length of 16, sys.float_info.min --
+    decides differently on the two sides of that number, and no table of bounded scenarios reaches it.  Necessary condition: no comparison
+    against a numeric constant of magnitude above 2 (written out, or named at module / class level, or taken from `sys`)."""
+    prog = ctx.prog
+    r = ctx.rule(rid, "no behaviour of %s changes at a size, depth, count or magnitude fixed in the source (no comparison with a numeric constant above 2)" % what, floor=10)
+    for f in sorted(prog.funcs.values(), key=lambda x: x.qual):
+        if f.mod.name not in modules:
+            continue
+        bad = 0
+        n_cmp = 0
+        for n in walk_body(f):
+            if not isinstance(n, ast.Compare):
+                continue
+            n_cmp += 1
+            sides = [n.left] + list(n.comparators)
+            for sd in sides:
+                v = _numeric_constant(prog, f, sd)
+                if v is None:
+                    continue
+                if v in ("sys", "big") or (isinstance(v, (int, float)) and (abs(v) > 2 or (isinstance(v, float) and 0 < abs(v) < 1e-6))):
+                    bad += 1
+                    r.fail("%s|threshold|%s" % (f.qual, norm(sd)[:30]), site(f, n),
+                           "`%s` in %s: the behaviour changes at the fixed number %s -- inputs on the other side of it (longer, deeper, more of them, smaller in "
+                           "magnitude) are treated differently from the ones the tests and tables sample" % (norm(n)[:60], f.qual, norm(sd)[:30] if v in ("sys", "big") else v))
+                    break
+        if not bad:
+            r.ok(site(f), "%d comparisons, none against a fixed number above 2" % n_cmp)
+    return r
+
+
+def rule_no_value_identity(ctx, rid, modules, what):
+    """`is` / `is not` compares object identity.  Between *computed* values (two lengths, two strings, two numbers taken from the
+    instance or the schema) its answer depends on what the interpreter happens to share -- small integers up to 256, interned strings --
+    and not on the values: `len(a) is not len(b)` is false for 256 and true for 257.  Identity is meaningful only against None, True, False,
+    a module-level marker object, a class, or the result of type()."""
+    prog = ctx.prog
+    r = ctx.rule(rid, "identity (`is`) is used only against None / True / False / a module-level marker or class, never between computed values, in %s" % what, floor=5)
+    builtin_types = {"bool", "int", "float", "str", "list", "dict", "tuple", "set", "frozenset", "bytes", "type", "object", "Ellipsis", "NotImplemented"}
+    for f in sorted(prog.funcs.values(), key=lambda x: x.qual):
+        if f.mod.name not in modules:
+            continue
+        from .c03 import _bound_names
+        local = _bound_names(f) if not isinstance(f.node, ast.Lambda) else set(f.all_params)
+        g = f.outer
+        while g is not None:
+            if not isinstance(g.node, ast.Lambda):
+                local |= _bound_names(g)
+            g = g.outer
+
+        def fixed_object(e):
+            if isinstance(e, ast.Constant) and (e.value is None or e.value is True or e.value is False or e.value is Ellipsis):
+                return True
+            if isinstance(e, ast.Name) and e.id not in local:
+                return True                  # a module-level name (marker object, class, function) or a builtin
+            if isinstance(e, ast.Attribute) and isinstance(e.value, ast.Name) and e.value.id not in local:
+                return True                  # module.NAME
+            return False
+        n_is = bad = 0
+        for n in walk_body(f):
+            if not isinstance(n, ast.Compare):
+                continue
+            operands = [n.left] + list(n.comparators)
+            for i, op in enumerate(n.ops):
+                if not isinstance(op, (ast.Is, ast.IsNot)):
+                    continue
+                n_is += 1
+                a, b = operands[i], operands[i + 1]
+                if fixed_object(a) or fixed_object(b):
+                    continue
+                if any(isinstance(x, ast.Call) and isinstance(x.func, ast.Name) and x.func.id == "type" for x in (a, b)):
+                    continue            # type(x) is type(y) / kind is list: classes are singletons
+                bad += 1
+                r.fail("%s|value-identity|%s" % (f.qual, norm(n)[:40]), site(f, n),
+                       "`%s` compares two computed values by identity: whether equal numbers or strings are one object is the interpreter's business "
+                       "(integers up to 256 are shared, 257 is not)" % norm(n)[:60])
+        if not bad:
+            r.ok(site(f), "%d identity tests, each against a fixed object" % n_is)
+    return r
